@@ -68,6 +68,11 @@ impl TestCase {
                 });
             }
         }
+        if output.exit_code == ExitStatus::Unknown {
+            return Err(TestCaseError::InternalError(anyhow::anyhow!(
+                "execution ended without an exit code (killed by a signal or never started)"
+            )));
+        }
         let diff_tool = DiffTool::new(self.expectations.clone());
         let stream = if self.config.output_stream == Some(OutputStreamControl::Stderr) {
             &output.stderr
